@@ -7,12 +7,18 @@
 //!      point; at every read position reachable through successful operations every operation is
 //!      tried: read_question, skip_question, read_rr, skip_rr, peek_rr (+ accessors, owner, skip,
 //!      parse), mark/rewind, at_eom, message_to_cursor.
+//!  (3) long messages: header, question, a filler record, then a record whose owner starts at
+//!      offset T in {255, 256, 257, 511, 512, 513, 768, 1024} and records (NS, CNAME, PTR, MX, SOA,
+//!      MINFO, CH A, SRV) whose RDATA names point to T (pointer low octet 0x00 / 0x01 / 0xff);
+//!      cut at every length inside the last record.
 //! Checked: no panic; an operation that fails leaves the position unchanged; a successful one
 //! returns exactly the reference fields (RDATA decompressed) and moves to the reference end;
 //! read_rr and peek_rr().parse() agree; skip_*/peek_rr look at the first chunk of the name only
 //! (as documented) and agree with read_* on the end position.  Which error is returned is not
 //! constrained.  The TTL of a record whose TTL field has the top bit set is only required to be
-//! the same for read_rr / PeekRr::ttl / parse (its raw_ttl must be the field).
+//! the same for read_rr / PeekRr::ttl / parse (its raw_ttl must be the field).  Refusing an IN SRV
+//! record whose target is compressed is tolerated (RFC 2782 forbids compressing it); expanding
+//! it wrongly is not.
 use quandary::message::reader::{PeekRr, ReadRr, Reader};
 use quandary::message::{Opcode, Question, Rcode};
 use std::panic::{catch_unwind, AssertUnwindSafe};
@@ -58,6 +64,17 @@ fn q_view(q: &Question) -> (Vec<u8>, u16, u16) { (q.qname.wire_repr().to_vec(), 
 fn rr_matches(got: &RrView, want: &RefRr) -> bool {
     let ttl_ok = if want.fixed.raw_ttl < 1 << 31 { got.3 == want.fixed.raw_ttl } else { true };
     got.0 == want.owner && got.1 == want.fixed.rtype && got.2 == want.fixed.class && ttl_ok && got.4 == want.rdata
+}
+
+/// The reference record at `pos`, or None where failing is (also) acceptable: `got_ok` says
+/// whether the code under test delivered a record.  The only tolerated deviation: an IN SRV
+/// record with a compressed target may be refused (RFC 2782).
+fn want_rr(msg: &[u8], pos: usize, got_ok: bool) -> Option<RefRr> {
+    let want = ref_rr(msg, pos)?;
+    let f = &want.fixed;
+    let raw = &msg[f.fixed_at + 10..f.end];
+    if !got_ok && f.rtype == T_SRV && f.class == IN && !ref_valid(IN, T_SRV, raw) { return None; }
+    Some(want)
 }
 
 /// Replays `path` (operations known to succeed) on a fresh reader.
@@ -113,8 +130,8 @@ fn check_op(msg: &[u8], path: &[Op], pos: usize, op: Op, cases: &mut u64) -> Opt
             got_end = total("skip_question", &input, || r.skip_question()).ok().map(|()| pos_of(&r));
         }
         Op::ReadRr => {
-            let want = ref_rr(msg, pos);
             let got = total("read_rr", &input, || r.read_rr()).ok().map(|rr| rr_view(&rr));
+            let want = want_rr(msg, pos, got.is_some());
             let same = match (&got, &want) { (Some(g), Some(w)) => rr_matches(g, w), (None, None) => true, _ => false };
             if !same { fail("read_rr differs from the reference record (owner, type, class, TTL, decompressed RDATA)", &input, &got, &want); }
             want_end = want.map(|w| w.fixed.end);
@@ -146,8 +163,7 @@ fn check_op(msg: &[u8], path: &[Op], pos: usize, op: Op, cases: &mut u64) -> Opt
             }
         }
         Op::PeekParse | Op::PeekOwnerParse => {
-            let want = ref_rr(msg, pos);
-            want_end = want.as_ref().map(|w| w.fixed.end);
+            let mut want = ref_rr(msg, pos);
             match peek(&mut r, &input) {
                 None => {
                     if want.is_some() { fail("peek_rr failed on a record the reference decodes", &input, &"Err", &want); }
@@ -158,6 +174,7 @@ fn check_op(msg: &[u8], path: &[Op], pos: usize, op: Op, cases: &mut u64) -> Opt
                     let peek_ttl: u32 = total("PeekRr::ttl", &input, || p.ttl()).into();
                     if op == Op::PeekOwnerParse { let _ = total("PeekRr::owner", &input, || p.owner().is_ok()); }
                     let got = total("PeekRr::parse", &input, || p.parse()).ok().map(|rr| rr_view(&rr));
+                    if got.is_none() { want = want_rr(msg, pos, false); }
                     let same = match (&got, &want) { (Some(g), Some(w)) => rr_matches(g, w) && g.3 == peek_ttl, (None, None) => true, _ => false };
                     if !same { fail("peek_rr().parse() differs from the reference record (owner, type, class, TTL, decompressed RDATA)", &input, &got, &want); }
                     // ... and from read_rr on the same record
@@ -166,6 +183,7 @@ fn check_op(msg: &[u8], path: &[Op], pos: usize, op: Op, cases: &mut u64) -> Opt
                     got_end = got.map(|_| pos_of(&r));
                 }
             }
+            want_end = want.as_ref().map(|w| w.fixed.end);
         }
     }
     if got_end.is_none() && pos_of(&r) != pos {
@@ -312,5 +330,49 @@ fn main() {
     };
     for a in &all { run(&[a], &mut cases); }
     for a in &all { for &b in &small { run(&[a, &all[b]], &mut cases); run(&[&all[b], a], &mut cases); } }
-    done(cases, &format!("headers: all 2^16 flag-octet values + every value of each other header octet; messages: header + 1 piece (menu of {} questions/records: 6 owners x 2 questions, 6 owners x 17 type/class/RDATA shapes x RDLENGTH exact/-1/+1, 2 TTLs) or 2 pieces (any x {} representatives, both orders), cut at every length, every operation at every reachable position ({} of the operations succeed)", all.len(), small.len(), SUCCEEDED.load(std::sync::atomic::Ordering::Relaxed)))
+    // (3) long messages: RDATA names pointing to a name at offset T >= 255
+    let far_targets = [255usize, 256, 257, 511, 512, 513, 768, 1024];
+    let mut far_msgs = 0u64;
+    for t in far_targets {
+        let ptr = |to: usize| vec![0xc0 | (to >> 8) as u8, to as u8];
+        let rr = |owner: &[u8], ty: u16, class: u16, rdata: &[u8]| {
+            let mut p = owner.to_vec();
+            p.extend(ty.to_be_bytes()); p.extend(class.to_be_bytes()); p.extend(3600u32.to_be_bytes());
+            p.extend((rdata.len() as u16).to_be_bytes()); p.extend(rdata);
+            p
+        };
+        let mut head = HEADER.to_vec();
+        head.extend([7, b'e', b'x', b'a', b'm', b'p', b'l', b'e', 3, b'c', b'o', b'm', 0, 0, 2, 0, 1]);       // question at 12
+        let fill = t - head.len() - 12;                                                              // owner (2) + fixed fields (10)
+        head.extend(rr(&ptr(12), 0xff00, IN, &vec![0xab; fill]));                                    // opaque filler record ending at T
+        assert_eq!(head.len(), t);
+        head.extend(rr(&[vec![3, b's', b'u', b'b'], ptr(12)].concat(), T_A, IN, &[192, 0, 2, 1]));   // owner sub.example.com. at T
+        let fixed20: Vec<u8> = (1..=20).collect();
+        let (l_ns, l_mail, l_hm) = (vec![3, b'n', b's', b'1'], vec![4, b'm', b'a', b'i', b'l'], vec![2, b'h', b'm']);
+        let rdatas: Vec<(u16, u16, Vec<u8>)> = vec![
+            (T_NS, IN, ptr(t)), (T_NS, IN, [l_ns.clone(), ptr(t)].concat()), (5, IN, ptr(t)), (12, IN, [l_ns.clone(), ptr(t)].concat()),
+            (T_NS, IN, ptr(t + 4)), (T_NS, IN, ptr(t + 1)),                                          // the chunk "-> 12" of the owner / into its label
+            (T_MX, IN, [vec![0, 10], ptr(t)].concat()), (T_MX, IN, [vec![0, 10], l_mail.clone(), ptr(t)].concat()),
+            (T_SOA, IN, [ptr(t), l_hm.clone(), ptr(12), fixed20.clone()].concat()), (T_SOA, IN, [l_ns.clone(), ptr(12), ptr(t), fixed20.clone()].concat()),
+            (T_SOA, IN, [ptr(t), ptr(t), fixed20.clone()].concat()), (T_SOA, IN, [l_ns.clone(), ptr(t), l_hm.clone(), ptr(t), fixed20.clone()].concat()),
+            (T_SOA, IN, [ptr(t), vec![0], fixed20.clone()].concat()), (T_SOA, IN, [vec![0], ptr(t), fixed20.clone()].concat()),
+            (T_MINFO, IN, [ptr(t), ptr(t)].concat()), (T_MINFO, IN, [l_hm.clone(), ptr(t), vec![1, b'e', 0]].concat()), (T_MINFO, IN, [vec![1, b'r', 0], l_hm.clone(), ptr(t)].concat()),
+            (T_A, CH, [ptr(t), vec![0, 5]].concat()), (T_A, CH, [l_ns.clone(), ptr(t), vec![0, 5]].concat()),
+            (T_SRV, IN, [vec![0, 1, 0, 2, 0, 53], ptr(t)].concat()), (T_SRV, IN, [vec![0, 1, 0, 2, 0, 53], l_ns.clone(), ptr(t)].concat()),
+            (T_SRV, CH, [vec![0, 1, 0, 2, 0, 53], ptr(t)].concat()), (0xff00, IN, ptr(t)),            // opaque: returned as they are
+        ];
+        for owner in [ptr(12), ptr(t), vec![0]] {
+            for (ty, class, rd) in &rdatas {
+                let mut msg = head.clone();
+                let last = msg.len();
+                msg.extend(rr(&owner, *ty, *class, rd));
+                explore(&msg, &mut cases);
+                if owner.len() == 2 { for cut in last..msg.len() { explore(&msg[..cut], &mut cases); } }
+                msg.extend(rr(&ptr(t), T_NS, IN, &ptr(t)));                                          // one more record behind it
+                explore(&msg, &mut cases);
+                far_msgs += 1;
+            }
+        }
+    }
+    done(cases, &format!("headers: all 2^16 flag-octet values + every value of each other header octet; messages: header + 1 piece (menu of {} questions/records: 6 owners x 2 questions, 6 owners x 17 type/class/RDATA shapes x RDLENGTH exact/-1/+1, 2 TTLs) or 2 pieces (any x {} representatives, both orders), cut at every length, every operation at every reachable position; long messages: question + filler record + a record at offset T in {{255,256,257,511,512,513,768,1024}} + one of 23 records (NS CNAME PTR MX SOA MINFO CH-A SRV opaque; RDATA names = pointer / label+pointer to T, both SOA/MINFO positions) x 3 owners, whole / cut at every length of the last record / one more record ({} messages) ({} of the operations succeed)", all.len(), small.len(), far_msgs, SUCCEEDED.load(std::sync::atomic::Ordering::Relaxed)))
 }
